@@ -102,8 +102,34 @@ pub enum Fault {
 /// In-memory asset with harness-owned environment answers: chunk size of every read,
 /// faults at chosen call indices (reads and seeks are counted together).
 #[derive(Clone)]
+pub enum AssetData {
+    Shared(Arc<Vec<u8>>),
+    /// leaked image: cloning needs no reference counting (hot BFS loops clone the tape per transition)
+    Static(&'static [u8]),
+}
+
+impl AssetData {
+    pub fn len(&self) -> usize {
+        self.bytes().len()
+    }
+    pub fn bytes(&self) -> &[u8] {
+        match self {
+            AssetData::Shared(a) => a.as_slice(),
+            AssetData::Static(s) => s,
+        }
+    }
+}
+
+impl std::ops::Index<std::ops::Range<usize>> for AssetData {
+    type Output = [u8];
+    fn index(&self, r: std::ops::Range<usize>) -> &[u8] {
+        &self.bytes()[r]
+    }
+}
+
+#[derive(Clone)]
 pub struct VAsset {
-    pub data: Arc<Vec<u8>>,
+    pub data: AssetData,
     pub pos: usize,
     /// maximum bytes delivered per read call (0 = unlimited)
     pub chunk: usize,
@@ -120,6 +146,12 @@ impl VAsset {
         VAsset::shared(Arc::new(data))
     }
     pub fn shared(data: Arc<Vec<u8>>) -> VAsset {
+        VAsset::from_data(AssetData::Shared(data))
+    }
+    pub fn leaked(data: Vec<u8>) -> VAsset {
+        VAsset::from_data(AssetData::Static(Box::leak(data.into_boxed_slice())))
+    }
+    pub fn from_data(data: AssetData) -> VAsset {
         VAsset {
             data,
             pos: 0,
